@@ -194,6 +194,33 @@ func suiteAtom(t *testing.T, cfg cfgT) {
 			}
 			emitPatch(ins, del, hr.chance(1, 2))
 		}
+		// Manager level, with NO enclosing transaction (what an embedder of the registry calls; the handlers wrap their calls
+		// in one): a multi-tuple delete of more than one internal batch whose LAST batch fails must delete nothing
+		mgrDelete := func(del []*ketoapi.RelationTuple) {
+			var items []string
+			for _, tu := range del {
+				items = append(items, "A "+hx("delete")+" "+fmtTuple(tu))
+			}
+			code := 204
+			its, err := e.reg.ReadOnlyMapper().FromTuple(ctx, del...)
+			if err == nil {
+				err = e.reg.RelationTupleManager().DeleteRelationTuples(ctx, its...)
+			}
+			if err != nil {
+				code = 500
+			}
+			out.emit(fmt.Sprintf("patch %d %s", len(items), strings.Join(items, " ")), fmt.Sprintf("%d %s", code, e.dumpDigest(pool)))
+			out.stat(fmt.Sprintf("manager_delete.%d", code))
+			steps++
+		}
+		// (fresh rows first, so that the first batch really has something to delete)
+		var fresh []*ketoapi.RelationTuple
+		for k := 0; k < 130; k++ {
+			fresh = append(fresh, mk(k))
+		}
+		emitPatch(fresh, nil, false)
+		mgrDelete(append(append([]*ketoapi.RelationTuple{}, fresh[:120]...), setup[0]))
+		mgrDelete(fresh[:115])
 		// delete-by-query that hits the poison row: must fail and delete nothing
 		code, _ := rest(e.write, "DELETE", "/admin/relation-tuples?namespace=n&relation="+poisonDel, nil)
 		out.emit(fmt.Sprintf("delrest %s 1", fmtPairs([][2]string{{"namespace", "n"}, {"relation", poisonDel}})), fmt.Sprintf("%d %s", code, e.dumpDigest(pool)))
